@@ -212,6 +212,27 @@ func runC16(s *core.Sim, tier string) RunInfo {
 					defer cancel()
 					_, _ = w.Sy.Head(c)
 				})
+			} else if s.Tape.Coin("gossip-is-forged-known", 1, 3) {
+				// a header the Syncer must refuse - a height it is already at or past - that claims a
+				// time far ahead: it is refused, and a refused header moves nothing, the pruning
+				// window included
+				x := nh() - uint64(s.Tape.Draw("known-back", 3))
+				if x < first {
+					x = first
+				}
+				h := simhdr.Retime(w.Ch.At(x), time.Now().Add(time.Duration(1+s.Tape.Draw("ahead-h", 48))*time.Hour))
+				var gerr error
+				tk = s.Go("gossip-forged-known", func() {
+					c, cancel := context.WithTimeout(ctx, 20*time.Minute)
+					defer cancel()
+					// (first make sure the honest header of that height is known)
+					_ = w.Sub.Deliver(c, w.Ch.At(x))
+					gerr = w.Sub.Deliver(c, h)
+					if gerr == nil {
+						s.Violate("bad-gossip-accepted", map[string]string{"kind": "retimed-known"}, "a header of the known height %d dated %v ahead was accepted", x, time.Until(h.Time()))
+					}
+				})
+				s.Probe("forged-known-height-gossip")
 			} else {
 				h := w.Ch.At(nh())
 				tk = s.Go("gossip", func() {
